@@ -15,6 +15,15 @@ file-writing primitives, so no `except Exception` / re-creation of the lock file
 removed iff `lockGone` (lock library reclaimed it / finalizer ran) and the dead handle is never used again.  Other handles -
 including ones loaded before the torn write - act afterwards.
 
+Torn file (`"torn": true` on a crash op; absent = false): the process is killed INSIDE its (k+1)-th file write instead of right
+before it.  `_serialize_config_version` / `_serialize_job_status_version` are `open(f, "w")` (truncate) + `write()`: a kill
+between the two leaves that version file EMPTY, and that is what a torn kill at a version-file write does (the file of the
+dying handle is truncated, nothing is written).  For a data-file write (`_serialize_file`: rename to .bk / write / remove .bk)
+the torn flag DEGENERATES to the plain crash - killed right before that write; a kill inside `_serialize_file` is outside this
+suite (level_note of C10).  An empty version file is reported as `null` (`cfgVer` / `jsVer`); every reader of it in the
+unchanged code dies in `int('')` (ValueError), i.e. the code fails closed until somebody rewrites the file (`forgeCfgVer` /
+`forgeJsVer`).
+
 After EVERY operation the result/exception enum and the parsed content of cluster_config.json, config_version.txt,
 job_status.json, job_status_version.txt (+ `.bk` files, + the lock marker) are compared with the Lean driver.
 """
@@ -112,6 +121,15 @@ def res_enum(exc):
     return {"error": err_enum(exc)}
 
 
+def read_version(f):
+    """content of a version file: the number, or None when the file is EMPTY (a writer died between truncate and write)"""
+    t = f.read_text().strip()
+    return int(t) if t else None
+
+
+VERSION_FILE_OF = {"_serialize_config_version": "_config_version_file", "_serialize_job_status_version": "_job_status_version_file"}
+
+
 def parse_disk(d):
     """abstract content of the four files (+ backups, + marker) — the shape `jdisk` prints"""
     cfgf = d / "cluster_config.json"
@@ -126,8 +144,8 @@ def parse_disk(d):
     js = {"jobs": [{"state": x["state"], "blockedBy": sorted(jid(b) for b in x["blocked_by"]), "cancel": x["cancel_on_blocking_job_failure"]}
                    for x in j["jobs"]],
           "hpcIds": [int(x) for x in j["hpc_job_ids"]], "batchIdx": j["batch_index"], "version": j["version"]}
-    return {"cfg": cfg, "cfgVer": int((d / "config_version.txt").read_text().strip()), "js": js,
-            "jsVer": int((d / "job_status_version.txt").read_text().strip()), "marker": (d / LOCK).exists(),
+    return {"cfg": cfg, "cfgVer": read_version(d / "config_version.txt"), "js": js,
+            "jsVer": read_version(d / "job_status_version.txt"), "marker": (d / LOCK).exists(),
             "bk": sorted(p.name for p in d.glob("*.bk"))}
 
 
@@ -195,9 +213,9 @@ class ClusterSuite(Suite):
         self._saved_prims = {n: jc.Cluster.__dict__[n] for n in prims}
         suite = self
 
-        def gated(orig):
+        def gated(name, orig):
             def w(*a, **kw):
-                suite._gate()
+                suite._gate(name, a)
                 suite._in_prim += 1
                 try:
                     return orig(*a, **kw)
@@ -206,9 +224,9 @@ class ClusterSuite(Suite):
             return w
         for n, raw in self._saved_prims.items():
             if isinstance(raw, staticmethod):
-                setattr(jc.Cluster, n, staticmethod(gated(raw.__func__)))
+                setattr(jc.Cluster, n, staticmethod(gated(n, raw.__func__)))
             else:
-                setattr(jc.Cluster, n, gated(raw))
+                setattr(jc.Cluster, n, gated(n, raw))
 
         def guarded_open(file, mode="r", *a, **kw):
             if any(c in mode for c in "wax+") and os.path.basename(str(file)) in FILES and not suite._in_prim:
@@ -224,11 +242,17 @@ class ClusterSuite(Suite):
         if "open" in self._jc.__dict__:
             del self._jc.open
 
-    def _gate(self):
-        """called right before every file write of the code under test"""
+    def _gate(self, name, args):
+        """called right before every file write of the code under test (`name`: the primitive, `args`: its arguments)"""
         if self._kill is not None:
             if self._kill["left"] == 0:
                 self._kill["fired"] = True
+                if self._kill.get("torn") and name in VERSION_FILE_OF:
+                    # killed INSIDE the write of a version file: `open(f, "w")` has truncated it, `write()` never ran
+                    path = getattr(args[0], VERSION_FILE_OF[name])
+                    open(path, "w").close()
+                    self._kill["tornfile"] = os.path.basename(path)
+                # `_serialize_file`: the torn flag degenerates to "killed right before this write"
                 raise Kill()
             self._kill["left"] -= 1
 
@@ -282,16 +306,20 @@ class ClusterSuite(Suite):
             before_raw = raw_files(out)
             before = parse_disk(out)
             o = {"k": k, "h": h, "crash": crash, "holders_before": list(holders), "protocol_before": protocol, "forged_before": forged,
-                 "marker_before": before["marker"], "submitter_before": before["cfg"]["submitter"] if before["cfg"] else "missing"}
+                 "marker_before": before["marker"], "submitter_before": before["cfg"]["submitter"] if before["cfg"] else "missing",
+                 # a version file is EMPTY (its writer died between truncate and write)
+                 "cfg_torn": before["cfgVer"] is None, "js_torn": before["jsVer"] is None}
             # ---- is the acting handle's copy OLDER THAN THE CONTENTS on disk?  (bytes it last read or wrote vs. bytes now;
             #      independent of the version files, which a torn write can leave out of step with the contents)
             if x is not None and h in sync and k != "load":
                 o["cfg_behind"] = sync[h]["cfg"] != before_raw["cluster_config.json"]
                 o["js_behind"] = sync[h]["js"] is not None and x.job_status is not None and sync[h]["js"] != before_raw["job_status.json"]
-            # ---- staleness of the acting handle, read off the real object and the real version files
+            # ---- staleness of the acting handle, read off the real object and the real version files.  With an EMPTY version
+            #      file "differs from the version file" is undefined: not stale in this sense (block (c) of the oracle does not
+            #      apply, the rejection is a ValueError); the content-based `cfg_behind` / `js_behind` still decide (c')
             if x is not None:
-                o["cfg_stale"] = x.config.version != before["cfgVer"]
-                o["js_stale"] = x.job_status is not None and x.job_status.version != before["jsVer"]
+                o["cfg_stale"] = before["cfgVer"] is not None and x.config.version != before["cfgVer"]
+                o["js_stale"] = before["jsVer"] is not None and x.job_status is not None and x.job_status.version != before["jsVer"]
                 o["js_loaded"] = x.job_status is not None
                 o["mem_submitter"] = x.config.submitter
                 o["mem_complete"] = x.config.is_complete
@@ -312,7 +340,10 @@ class ClusterSuite(Suite):
                 # writes the in-memory job status as it is: it must be the disk's, up to reduced blocker sets
                 if [j.state.value for j in x.job_status.jobs] != [j["state"] for j in before["js"]["jobs"]]:
                     wellformed = False
+            self._tornfile = None
             res, summary = self._do(op, x, handles, out, case)
+            if self._tornfile:
+                o["tornfile"] = self._tornfile
             after = parse_disk(out)
             after_raw = raw_files(out)
             o["changed"] = [f for f in FILES if before_raw[f] != after_raw[f]]
@@ -375,8 +406,8 @@ class ClusterSuite(Suite):
         s = summary_view(c.get_status_summary(include_jobs=True))
         s["cfgVersion"] = c.config.version
         s["jsVersion"] = c.job_status.version
-        s["cfgVerFile"] = int((out / "config_version.txt").read_text().strip())
-        s["jsVerFile"] = int((out / "job_status_version.txt").read_text().strip())
+        s["cfgVerFile"] = read_version(out / "config_version.txt")      # None: the file is empty
+        s["jsVerFile"] = read_version(out / "job_status_version.txt")
         s["cfgBytes"] = hashlib.sha1((out / "cluster_config.json").read_bytes()).hexdigest()[:12]
         s["jsBytes"] = hashlib.sha1((out / "job_status.json").read_bytes()).hexdigest()[:12]
         return s
@@ -388,10 +419,11 @@ class ClusterSuite(Suite):
         summary = None
         if k == "crash":
             inner = op["op"]
-            self._kill = {"left": op["after"], "fired": False}
+            self._kill = {"left": op["after"], "fired": False, "torn": bool(op.get("torn", False))}
             try:
                 return self._do(inner, x, handles, out, case)
             except Kill:
+                self._tornfile = self._kill.get("tornfile")
                 # no finally/except of the dead process matters any more; its lock marker stays unless the lock library
                 # (or the interpreter's finalizers on Ctrl-C) removed it
                 if op["lockGone"] and inner["k"] != "prepareResubmit" and (out / LOCK).exists():
@@ -491,7 +523,10 @@ class ClusterSuite(Suite):
             where = f"op #{i} {k} h={op.get('h')}" + (" (process killed before one of its file writes)" if o.get("killed") else "")
             success = res in ("ok", {"bool": True})
             # ---- C10 (c'): a handle whose copy is OLDER THAN THE CONTENTS on disk never overwrites them - whatever the version
-            #      files say (they are out of step with the contents after a writer was killed between its file writes)
+            #      files say (they are out of step with the contents after a writer was killed between its file writes, or EMPTY
+            #      after a writer was killed inside the write of a version file: the unchanged code then rejects EVERY write of
+            #      that pair with ValueError; only the overwrite by an out-of-date handle is a violation of C10's text, so an
+            #      accepted write by an up-to-date handle in that state is left to the correspondence with the model)
             if not o["forged_before"]:
                 if o.get("cfg_behind") and "cluster_config.json" in o["changed"]:
                     v.append(Violation("C10", "stale.overwrote_newer_config", f"{where}: cluster_config.json had been rewritten by another process "
@@ -530,7 +565,11 @@ class ClusterSuite(Suite):
                     must_mismatch = (k == "markCanceled") or (k == "update" and (stale_cfg or o["js_loaded"])) or \
                         (k == "demote" and o["mem_submitter"] == o["handle_host"]) or \
                         (k == "markComplete" and not o["mem_complete"]) or (k == "promote" and o["mem_submitter"] is None)
-                    if must_mismatch and res != {"error": "versionMismatch"}:
+                    # an EMPTY version file among the files the call reads: the rejection may be the ValueError of that read
+                    # instead of the mismatch of the other pair - which comes first is the read order of the code
+                    # (`_check_versions`: config first), not part of the property; the model correspondence pins it
+                    torn_read = (o.get("cfg_torn") and k in CFG_WRITERS) or (o.get("js_torn") and k in JS_WRITERS)
+                    if must_mismatch and not torn_read and res != {"error": "versionMismatch"}:
                         v.append(Violation("C10", "stale.no_mismatch", f"{where}: stale handle's write returned {res}, not a version mismatch"))
             # ---- C10 (d): under Protocol a holder is never stale when it writes
             if o["protocol_before"] and k in HOLDER_ONLY and op.get("h") in o["holders_before"] and not o["marker_before"]:
@@ -555,21 +594,27 @@ class ClusterSuite(Suite):
                 p = prev_status
                 if p is not None:
                     v += self._c09_mono(where, p, s)
-        # version monotonicity over the whole run (no forging)
-        prev = result.get("model", {}).get("init")
+        # version monotonicity over the whole run (no forging).  An EMPTY version file (None) has no number: `last` keeps the last
+        # number seen in each version file, so that a file that was empty in between is never "repaired" by JADE code into a
+        # smaller number, and a data file never changes under an empty (or not larger) version file
+        init = result.get("model", {}).get("init") or {}
+        last = {"cfgVer": init.get("cfgVer"), "jsVer": init.get("jsVer")}
         for i, (op, st, o) in enumerate(zip(case["ops"], steps, obs)):
             cur = st["disk"]
             op = op["op"] if op["k"] == "crash" else op
+            larger = {f: cur[f] is not None and (last[f] is None or cur[f] > last[f]) for f in last}
             if op["k"] not in ("forgeCfgVer", "forgeJsVer"):
-                if cur["cfgVer"] < prev["cfgVer"] or cur["jsVer"] < prev["jsVer"]:
+                if any(cur[f] is not None and last[f] is not None and cur[f] < last[f] for f in last):
                     v.append(Violation("C10", "version.decreased", f"op #{i} {op['k']}: a version file decreased"))
-                if "cluster_config.json" in o["changed"] and op["k"] != "rmCfg" and not cur["cfgVer"] > prev["cfgVer"]:
+                if "cluster_config.json" in o["changed"] and op["k"] != "rmCfg" and not larger["cfgVer"]:
                     v.append(Violation("C10", "version.not_bumped", f"op #{i} {op['k']}: cluster_config.json changed without a larger config version"))
-                if "job_status.json" in o["changed"] and not cur["jsVer"] > prev["jsVer"]:
+                if "job_status.json" in o["changed"] and not larger["jsVer"]:
                     v.append(Violation("C10", "version.not_bumped", f"op #{i} {op['k']}: job_status.json changed without a larger job-status version"))
                 if cur["bk"]:
                     v.append(Violation("C10", "backup.left", f"op #{i} {op['k']}: backup files left behind {cur['bk']}"))
-            prev = cur
+            for f in last:
+                if cur[f] is not None:
+                    last[f] = cur[f]
         seen, out = set(), []
         for x in v:
             if (x.prop, x.key) not in seen:
@@ -643,10 +688,23 @@ class ClusterSuite(Suite):
                 if o.get("killed"):
                     t.add("crash.lockGone" if op["lockGone"] else "crash.markerStays")
                     t.add("crash.torn[" + ",".join(sorted(o["changed"])) + "]")
+                    if op.get("torn"):
+                        # killed INSIDE a file write: a version file was truncated, or (data file) the plain crash
+                        t.add(f"crash.tornfile[{o['tornfile']}]" if o.get("tornfile") else "crash.tornfile.degenerate(data file)")
+                        if o.get("tornfile"):
+                            t.add(f"crash.tornfile.{op['op']['k']}.after{op['after']}")
                 op = op["op"]
             k, res = op["k"], st["res"]
             r = res if isinstance(res, str) else ("err." + res["error"] if "error" in res else f"bool.{res['bool']}")
             t.add(f"{k}.{r}")
+            # operations executed while a version file is EMPTY
+            for pair, flag, writers, behind in (("cfg", "cfg_torn", CFG_WRITERS, "cfg_behind"), ("js", "js_torn", JS_WRITERS, "js_behind")):
+                if o.get(flag):
+                    t.add(f"afterTorn.{pair}.{k}.{r}")
+                    if k in writers and o.get(behind):
+                        t.add(f"afterTorn.{pair}.write_by_out_of_date_handle.{r}")
+                    if k in writers and "cfg_stale" in o and not o.get(behind) and not o["marker_before"]:
+                        t.add(f"afterTorn.{pair}.write_by_up_to_date_handle.{r}")
             if crashed and not o.get("killed"):
                 if o.get("cfg_stale") and k in CFG_WRITERS:
                     t.add(f"afterCrash.stale_cfg_write.{r}")
